@@ -1644,6 +1644,27 @@ def rule_R26it(text, applied):
     return text
 
 
+def rule_R34(text, applied):
+    """`for X in A.iter().flat_map(|R| R.version_sets(P)).chain(B.iter().copied()) {` -> the sequence is materialised by a
+    verified helper (std definition of flat_map + chain over the trusted `vversion_sets`): `let chN_ = vdeps_version_sets(A, P, B);
+    let mut ciN_: usize = 0; while ciN_ < chN_.len() { let X = chN_[ciN_]; ciN_ += 1;`"""
+    cnt = 0
+    while True:
+        m_text = mask(text)
+        m = re.search(r"\bfor\s+(\w+)\s+in\s+(\w+)\s*\.\s*iter\(\)\s*\.\s*flat_map\(\s*\|\s*(\w+)\s*\|\s*(\w+)\s*\.\s*version_sets\(([^()]*(?:\([^()]*\))*[^()]*)\)\s*\)\s*\.\s*chain\(\s*(\w+)\s*\.\s*iter\(\)\s*\.\s*copied\(\)\s*\)\s*\{", m_text)
+        if not m:
+            break
+        if m.group(3) != m.group(4):
+            raise ExtractError("R34: the flat_map closure is not |r| r.version_sets(..) (outside the subset)")
+        x, a, p_, b = m.group(1), m.group(2), " ".join(text[m.start(5):m.end(5)].split()), m.group(6)
+        head = f"let ch{cnt}_ = vdeps_version_sets({a}, {p_}, {b}); let mut ci{cnt}_: usize = 0; while ci{cnt}_ < ch{cnt}_.len() {{ let {x} = ch{cnt}_[ci{cnt}_]; ci{cnt}_ += 1;"
+        text = text[:m.start()] + _keep_newlines(text[m.start():m.end()], head) + text[m.end():]
+        cnt += 1
+    if cnt:
+        applied.append(f"R34x{cnt}")
+    return text
+
+
 def rule_R8bitget(text, applied):
     """`E.get(I).as_deref().copied()` on a BitVec -> `E.vget(I)` (stub method: Some(bit) in range, None beyond)."""
     t, n = _sub_masked(text, r"\.\s*get\(([^\)]+)\)\s*\.\s*as_deref\(\)\s*\.\s*copied\(\)", lambda m, s: f".vget({m.group(1).strip()})")
@@ -1918,7 +1939,7 @@ RULES = {
     "R25": rule_R25, "R7optake": rule_R7optake,
     "R23": rule_R23, "R24": rule_R24,
     "R16push": rule_R16push, "R22": rule_R22, "R22flat": rule_R22flat,
-    "R20": rule_R20, "R21": rule_R21, "R7stackrev": rule_R7stackrev, "R7pairs": rule_R7pairs, "R7indexmap": rule_R7indexmap, "R12frozen": rule_R12frozen, "R31": rule_R31, "R30": rule_R30, "R26it": rule_R26it, "R29": rule_R29, "R7own": rule_R7own, "R28": rule_R28, "R27": rule_R27, "R8all": rule_R8all, "R16od": rule_R16od, "R10site": rule_R10site,
+    "R20": rule_R20, "R21": rule_R21, "R7stackrev": rule_R7stackrev, "R7pairs": rule_R7pairs, "R7indexmap": rule_R7indexmap, "R12frozen": rule_R12frozen, "R34": rule_R34, "R31": rule_R31, "R30": rule_R30, "R26it": rule_R26it, "R29": rule_R29, "R7own": rule_R7own, "R28": rule_R28, "R27": rule_R27, "R8all": rule_R8all, "R16od": rule_R16od, "R10site": rule_R10site,
     "R1": rule_R1, "R2": rule_R2, "R2ref": rule_R2ref, "R3": rule_R3, "R4": rule_R4, "R5": rule_R5,
     "R8max": rule_R8max, "R8cmpmax": rule_R8cmpmax, "R8resize_none": rule_R8resize_none, "R9": rule_R9, "R8position": rule_R8position, "R8rotate": rule_R8rotate, "R12refcell": rule_R12refcell,
     "R8slice": rule_R8slice, "R7iter": rule_R7iter, "R8bitget": rule_R8bitget, "R8intonext": rule_R8intonext, "R8rposition": rule_R8rposition, "R8contains": rule_R8contains, "R12cell": rule_R12cell, "R8resize_veccap": rule_R8resize_veccap, "R8collectid": rule_R8collectid, "R8index": rule_R8index, "subst": rule_subst,
